@@ -76,6 +76,12 @@ fn programs(fair: bool) -> Vec<Program> {
     // callers that really poll their acknowledgements while the worker completes them (status / waker locks)
     v.push(mk("put(c);await||delete(a);await", 100, vec![put(1, 2)], vec![vec![put(3, 2), Op::Await { call: 0 }], vec![del(1), Op::Await { call: 0 }]]));
     v.push(mk("put(c);poll_once;await||delete(a);poll_once;await", 100, vec![put(1, 2)], vec![vec![put(3, 2), Op::PollOnce { call: 0 }, Op::Await { call: 0 }], vec![del(1), Op::PollOnce { call: 0 }, Op::Await { call: 0 }]]));
+    // eviction in a cache whose keys are in their second life (every victim order: the sample's iteration order is a choice)
+    {
+        let mut p = mk("second lives (TTL key deleted and put again, plain key deleted and put again), then evicting-put(c)||get(b)", 100, vec![put_ttl(1, 30, 9000), del(1), put(1, 30), put(2, 30), del(2), put_ttl(2, 30, 9000)], vec![vec![put(3, 40)], vec![get(2)]]);
+        p.world.iter_order_is_choice = true;
+        v.push(p);
+    }
     v.push(mk("delete(a)||upsert(b,w)||{tick} sweeping c", 100, vec![put(1, 2), put(2, 2), put_ttl(3, 2, 1000), adv(3000)], vec![vec![del(1)], vec![ups(2, Some(3), None, false)], vec![Op::Tick]]));
     v
 }
